@@ -396,31 +396,35 @@ def run(ctx):
     judge = Judge(ctx)
     arity_stratum(ctx)
     ctx.exhaustive = True
-    batches = []
+    thorough = ctx.tier == "thorough"
     cur = []
-    thorough = ctx.tier == "thorough" or not ctx.proof_ok
     for c in G.pairs(None if thorough else 3):
         cur.append(c)
         if len(cur) == 400:
-            batches.append(cur)
+            evaluate(ctx, cur, judge)
             cur = []
     if cur:
-        batches.append(cur)
-    for b in batches:
-        evaluate(ctx, b, judge)
-    tri = list(G.triples()) if thorough else list(G.triples(ctx.rng, 2500))
+        evaluate(ctx, cur, judge)
+    # a broken proof / drifting model without a failing input so far: widen the search (thorough generator)
+    widen = thorough or ((not ctx.proof_ok or bool(ctx.drift)) and not ctx.violations)
+    if widen and not thorough:
+        ctx.notes.append("proof/correspondence broken and no failing input among the pairs: thorough generator used")
+        extra = [c for c in G.pairs(None) if c["ops"][len(G.BASE)] in G.QUERIES[3:]]
+        for i in range(0, len(extra), 400):
+            evaluate(ctx, extra[i:i + 400], judge)
+            if ctx.violations:
+                break
+    tri = list(G.triples()) if widen else list(G.triples(ctx.rng, 2500))
     for i in range(0, len(tri), 400):
         evaluate(ctx, tri[i:i + 400], judge)
-        if len(ctx.violations) > 10:
+        if len(ctx.violations) > 10 or (ctx.violations and not thorough):
             break
-    n_rand = 20000 if thorough else 400
+    n_rand = 20000 if widen else 400
     for i in range(0, n_rand, 200):
         cases = [G.random_history(ctx.rng, ctx.rng.randint(4, 25)) for _ in range(min(200, n_rand - i))]
         evaluate(ctx, cases, judge)
-        if len(ctx.violations) > 10:
+        if len(ctx.violations) > 10 or (ctx.violations and not thorough):
             break
-    if not ctx.proof_ok or ctx.drift:
-        ctx.notes.append("proof/correspondence broken: the run above used the thorough generator as failing-input search")
 
 
 def replay(ctx, rp):
